@@ -286,7 +286,7 @@ func rawRequest(c *reqCase) []byte {
 
 type env struct {
 	r       *runner.Run
-	a       *app.VerifApp
+	s       *session
 	family  string // hmac | basic | forward | config
 	cfgName string
 	dsl     string
@@ -351,7 +351,7 @@ func (e *env) evalOnce(c *reqCase, refAccept bool, allowed []int) verdict {
 	// happened in between (same application instance, single goroutine, virtual clock unmoved).
 	before := e.last
 	if before == nil || !before.at.Equal(time.Now()) {
-		before, err = takeSnap(e.a.Store)
+		before, err = takeSnap(e.s.a.Store)
 		if err != nil {
 			e.r.Infra("snapshot: %v", err)
 			return verdict{Parsed: true}
@@ -359,9 +359,9 @@ func (e *env) evalOnce(c *reqCase, refAccept bool, allowed []int) verdict {
 	}
 	e.last = nil
 	rec := httptest.NewRecorder()
-	e.a.Ingress.ServeHTTP(rec, req)
+	e.s.a.Ingress.ServeHTTP(rec, req)
 	status := rec.Code
-	after, err := takeSnap(e.a.Store)
+	after, err := takeSnap(e.s.a.Store)
 	if err != nil {
 		e.r.Infra("snapshot: %v", err)
 		return verdict{Parsed: true}
@@ -499,24 +499,58 @@ func (e *env) replayObj(c *reqCase, refAccept bool, allowed []int, v verdict) re
 	return rp
 }
 
+// session: the application instance(s) of one bubble.
+type session struct {
+	r    *runner.Run
+	slot int
+	dsl  string
+	a    *app.VerifApp
+}
+
+// boot performs the production boot sequence from the DSL text and puts one sentinel message
+// into the queue (so that "queue untouched" also covers rows that were there before).
+func (s *session) boot(sentinelRoute string) bool {
+	a, err := app.VerifBoot(app.VerifBootOptions{Dir: fmt.Sprintf("%s/app%d", scratch, s.slot), ConfigText: s.dsl})
+	if err != nil {
+		s.r.Infra("boot failed: %v\n%s", err, s.dsl)
+		return false
+	}
+	s.a = a
+	if a.Ingress == nil || a.Backend != "memory" {
+		s.r.Infra("boot: ingress handler %v backend %q", a.Ingress != nil, a.Backend)
+		return false
+	}
+	if sentinelRoute != "" {
+		if err := a.Store.Enqueue(queue.Envelope{ID: "sentinel", Route: sentinelRoute, Target: "pull", Payload: []byte("sentinel")}); err != nil {
+			s.r.Infra("sentinel enqueue: %v", err)
+			return false
+		}
+	}
+	return true
+}
+
+// reboot replaces the application by a fresh one (same DSL, same virtual instant). Used every
+// few hundred requests because the nonce cache scans all remembered nonces on every request.
+func (s *session) reboot(sentinelRoute string) bool {
+	s.a.Shutdown()
+	s.a = nil
+	return s.boot(sentinelRoute)
+}
+
 // bubble boots the application inside a synctest bubble, moves the virtual clock to `at`
 // (zero: leave it at the epoch) and runs f; the application is shut down inside the bubble.
-func bubble(t *testing.T, r *runner.Run, slot int, dsl string, at time.Time, f func(a *app.VerifApp)) {
+func bubble(t *testing.T, r *runner.Run, slot int, dsl, sentinelRoute string, at time.Time, f func(s *session)) {
 	synctest.Test(t, func(t *testing.T) {
 		if !time.Now().Equal(epoch) {
 			r.Infra("bubble clock starts at %v, expected %v", time.Now(), epoch)
 			return
 		}
-		a, err := app.VerifBoot(app.VerifBootOptions{Dir: fmt.Sprintf("%s/app%d", scratch, slot), ConfigText: dsl})
-		if err != nil {
-			r.Infra("boot failed: %v\n%s", err, dsl)
-			return
-		}
-		defer a.Shutdown()
-		if a.Ingress == nil || a.Backend != "memory" {
-			r.Infra("boot: ingress handler %v backend %q", a.Ingress != nil, a.Backend)
-			return
-		}
+		s := &session{r: r, slot: slot, dsl: dsl}
+		defer func() {
+			if s.a != nil {
+				s.a.Shutdown()
+			}
+		}()
 		if !at.IsZero() {
 			time.Sleep(at.Sub(time.Now()))
 			if !time.Now().Equal(at) {
@@ -524,7 +558,10 @@ func bubble(t *testing.T, r *runner.Run, slot int, dsl string, at time.Time, f f
 				return
 			}
 		}
-		f(a)
+		if !s.boot(sentinelRoute) {
+			return
+		}
+		f(s)
 	})
 }
 
@@ -544,7 +581,13 @@ type hmacJob struct {
 	cfg, other *hmacCfg
 	pt         point
 	off        offset
+	pairsPart  int // -1: the single-mutation sets; k>=0: part k of the 2-element mutation sets (thorough)
 }
+
+const (
+	pairsParts = 24
+	chunk      = 400 // requests per application instance
+)
 
 func runHMAC(t *testing.T, r *runner.Run, deadline time.Time) {
 	cfgs := hmacConfigs(r.Thorough())
@@ -552,7 +595,12 @@ func runHMAC(t *testing.T, r *runner.Run, deadline time.Time) {
 	for ci, cfg := range cfgs {
 		for _, pt := range cfg.points() {
 			for _, off := range offsets(cfg.Tol, r.Thorough()) {
-				jobs = append(jobs, hmacJob{len(jobs), cfg, cfgs[ci^1], pt, off})
+				jobs = append(jobs, hmacJob{len(jobs), cfg, cfgs[ci^1], pt, off, -1})
+				if r.Thorough() && len(cfg.Refs) == 0 && off.D == 0 {
+					for k := 0; k < pairsParts; k++ {
+						jobs = append(jobs, hmacJob{len(jobs), cfg, cfgs[ci^1], pt, off, k})
+					}
+				}
 			}
 		}
 	}
@@ -590,22 +638,21 @@ func runHMAC(t *testing.T, r *runner.Run, deadline time.Time) {
 	}
 }
 
-// hmacBubble: one application instance at one virtual instant; every signer x every mutation.
+// hmacBubble: one virtual instant; every signer x every mutation.
 func hmacBubble(t *testing.T, r *runner.Run, slot int, j hmacJob) {
 	cfg, pt, off := j.cfg, j.pt, j.off
 	dsl := cfg.dsl(slot)
 	at := time.Unix(pt.S, 0).UTC().Add(off.D)
 	tl := newTally()
-	bubble(t, r, slot, dsl, at, func(a *app.VerifApp) {
+	bubble(t, r, slot, dsl, cfg.Route, at, func(s *session) {
+		sent := 0
 		for _, sg := range cfg.signers() {
-			e := &env{r: r, a: a, family: "hmac", cfgName: cfg.Name, dsl: dsl, route: cfg.Route, tl: tl, sample: j.idx == 2}
+			e := &env{r: r, s: s, family: "hmac", cfgName: cfg.Name, dsl: dsl, route: cfg.Route, tl: tl, sample: j.idx == 2}
 			e.where = "clock=ts" + off.Label
 			if len(cfg.Refs) > 0 {
 				e.where = fmt.Sprintf("ts=%s:signer=%s:clock=ts%s", pt.Label, sg.Label, off.Label)
 			}
-			g := &hmacGen{cfg: cfg, other: j.other, sg: sg, S: pt.S, full: r.Thorough(), probe: pt.Probe && off.D == 0, nonce: freshNonce}
-			// thorough: the 2-element mutation sets, once per configuration family at clock = signed ts
-			g.pairs = r.Thorough() && off.D == 0 && pt.Probe
+			g := &hmacGen{cfg: cfg, other: j.other, sg: sg, S: pt.S, full: r.Thorough(), probe: pt.Probe && off.D == 0, nonce: freshNonce, pairsPart: j.pairsPart}
 			cases := g.all()
 			now := time.Now()
 			baseValid := hmacAccepts(cfg, cases[0], now)
@@ -620,6 +667,13 @@ func hmacBubble(t *testing.T, r *runner.Run, slot int, j hmacJob) {
 				return &c2
 			}
 			for _, c := range cases {
+				if sent > 0 && sent%chunk == 0 {
+					if !s.reboot(cfg.Route) {
+						return
+					}
+					e.last = nil
+				}
+				sent++
 				ref := hmacAccepts(cfg, c, now)
 				allowed := unroutedAllowed(routedTo(cfg.Route, cfg.Methods, c), []int{http.StatusUnauthorized})
 				e.run(c, ref, allowed, baseValid || c.Class == "base", renonce)
@@ -650,8 +704,8 @@ func runBasic(t *testing.T, r *runner.Run) {
 	dsl := basicDSL()
 	tl := newTally()
 	defer tl.flush(r)
-	bubble(t, r, 0, dsl, time.Time{}, func(a *app.VerifApp) {
-		e := &env{r: r, a: a, family: "basic", cfgName: "two-users", dsl: dsl, route: "/b", where: "-", tl: tl, sample: true}
+	bubble(t, r, 0, dsl, "/b", time.Time{}, func(s *session) {
+		e := &env{r: r, s: s, family: "basic", cfgName: "two-users", dsl: dsl, route: "/b", where: "-", tl: tl, sample: true}
 		for _, c := range basicCases("/b", r.Thorough()) {
 			ref := basicAccepts(users, c)
 			e.run(c, ref, unroutedAllowed(routedTo("/b", []string{"POST"}, c), []int{http.StatusUnauthorized}), true, nil)
@@ -733,11 +787,11 @@ func runForward(t *testing.T, r *runner.Run) {
 	dsl := forwardDSL()
 	tl := newTally()
 	defer tl.flush(r)
-	bubble(t, r, 0, dsl, time.Time{}, func(a *app.VerifApp) {
+	bubble(t, r, 0, dsl, "/f", time.Time{}, func(s *session) {
 		rt := &fwdRT{}
-		a.VerifForwardAuthClient(&http.Client{Transport: rt})
+		s.a.VerifForwardAuthClient(&http.Client{Transport: rt})
 		for _, route := range []string{"/f", "/g"} {
-			e := &env{r: r, a: a, family: "forward", cfgName: "route" + route, dsl: dsl, route: route, fwd: rt, tl: tl, sample: true}
+			e := &env{r: r, s: s, family: "forward", cfgName: "route" + route, dsl: dsl, route: route, fwd: rt, tl: tl, sample: true}
 			first := true
 			for _, b := range forwardBehaviours() {
 				rt.b = b
@@ -808,7 +862,11 @@ func runConfigGuards(t *testing.T, r *runner.Run) {
 			a.VerifForwardAuthClient(&http.Client{Transport: rt})
 			tl := newTally()
 			defer tl.flush(r)
-			e := &env{r: r, a: a, family: "config", cfgName: g.name, dsl: dsl, route: "/c", where: "booted", fwd: rt, tl: tl, sample: true}
+			if err := a.Store.Enqueue(queue.Envelope{ID: "sentinel", Route: "/c", Target: "pull", Payload: []byte("sentinel")}); err != nil {
+				r.Infra("sentinel enqueue: %v", err)
+				return
+			}
+			e := &env{r: r, s: &session{r: r, dsl: dsl, a: a}, family: "config", cfgName: g.name, dsl: dsl, route: "/c", where: "booted", fwd: rt, tl: tl, sample: true}
 			c := &reqCase{Class: "no-credentials", Method: "POST", Target: "/c", Body: append([]byte(nil), baseBody...), Hdrs: []hdr{{"Content-Type", "application/json"}}}
 			e.run(c, false, []int{401, 403, 503}, true, nil)
 		})
@@ -839,11 +897,11 @@ func runReplay(t *testing.T, r *runner.Run, path string) {
 	}
 	tl := newTally()
 	defer tl.flush(r)
-	bubble(t, r, 0, rp.DSL, at, func(a *app.VerifApp) {
-		e := &env{r: r, a: a, family: rp.Family, cfgName: rp.Config, dsl: rp.DSL, route: rp.Route, where: rp.Where, tl: tl}
+	bubble(t, r, 0, rp.DSL, rp.Route, at, func(s *session) {
+		e := &env{r: r, s: s, family: rp.Family, cfgName: rp.Config, dsl: rp.DSL, route: rp.Route, where: rp.Where, tl: tl}
 		if rp.FwdMode != "" {
 			e.fwd = &fwdRT{b: fwdBehaviour{rp.FwdMode, rp.FwdStatus}}
-			a.VerifForwardAuthClient(&http.Client{Transport: e.fwd})
+			s.a.VerifForwardAuthClient(&http.Client{Transport: e.fwd})
 		}
 		v := e.evalOnce(c, rp.RefAccepts, rp.Allowed)
 		fmt.Printf("REPLAY %s %s %s -> status %d, failure %q %s\n", rp.Family, rp.Class, rp.Detail, v.Status, v.Kind, v.Msg)
